@@ -19,6 +19,7 @@ import (
 	"path/filepath"
 	"regexp"
 	"sort"
+	"strconv"
 	"strings"
 )
 
@@ -53,6 +54,7 @@ var shapeFiles = []string{
 	"processors/sshd/revoked_type.go",
 }
 
+var fmtVerb = regexp.MustCompile(`%[-+# 0-9.]*[a-zA-Z]`)
 var logMethod = regexp.MustCompile(`^(Debug|Info|Warn|Error)(f|ln|w)?$`)
 var loggerName = regexp.MustCompile(`(?i)(^l$|log)`)
 
@@ -160,6 +162,29 @@ func canonFunc(fset *token.FileSet, fd *ast.FuncDecl) string {
 			v.Body = stripLogs(v.Body)
 		case *ast.CommClause:
 			v.Body = stripLogs(v.Body)
+		}
+		return true
+	})
+	// error / message texts: only the format verbs count (re-wording a message is not a change of behaviour the
+	// properties speak about; which values go into it still is)
+	ast.Inspect(fd, func(n ast.Node) bool {
+		call, ok := n.(*ast.CallExpr)
+		if !ok || len(call.Args) == 0 {
+			return true
+		}
+		fn := ""
+		if sel, ok := call.Fun.(*ast.SelectorExpr); ok {
+			if x, ok := sel.X.(*ast.Ident); ok {
+				fn = x.Name + "." + sel.Sel.Name
+			}
+		}
+		if fn != "fmt.Errorf" && fn != "fmt.Sprintf" && fn != "errors.New" {
+			return true
+		}
+		if bl, ok := call.Args[0].(*ast.BasicLit); ok && bl.Kind == token.STRING {
+			if txt, err := strconv.Unquote(bl.Value); err == nil {
+				bl.Value = strconv.Quote(strings.Join(fmtVerb.FindAllString(txt, -1), " "))
+			}
 		}
 		return true
 	})
